@@ -1,51 +1,158 @@
 ------------------------------- MODULE TraceC --------------------------------
 (***************************************************************************)
 (* Validation of node-loss scenarios on real piko processes (harness       *)
-(* cmd/peng, mode c18) against the properties of Cluster.tla, in their     *)
-(* bounded-time form.  A Loss line names the victim, the phase at which it *)
-(* was lost and how (SIGTERM / SIGKILL), and carries the named             *)
-(* observations made on the survivors and the upstream listeners.          *)
-(*   terminates_within_grace            ~ StopTerminates (within the grace period)       *)
-(*   left_at_once                       ~ NotifiedStopRoutingAtOnce                      *)
-(*   stopped_advertising                ~ StoppedNodeAdvertisesNothing / LeftViewsAreEmpty *)
-(*   listeners_reconnected, served_again_from_every_survivor ~ EventuallyRecovered       *)
-(*   victim_excluded_from_routing       ~ NeverRouteToLeft (left or unreachable)         *)
+(* cmd/peng, mode c18) against Cluster.tla.                                *)
+(* A Loss line names the victim, the phase at which it was lost and how    *)
+(* (SIGTERM / SIGKILL), and carries                                        *)
+(*  - tl: the time line recorded while it happened: what the driver did    *)
+(*    (lose = SIGTERM or the decision to kill, kill = SIGKILL, exited) and *)
+(*    what every node's admin port showed whenever it changed: its routing *)
+(*    table (view: per other node status + endpoints) and its own registry *)
+(*    (reg).  The time line must be explainable by Cluster.tla: the        *)
+(*    driver's events are Lose / Kill, everything else happens in          *)
+(*    Background steps between the observations, and every observation     *)
+(*    must equal the specification's state of that node (layer A; a time   *)
+(*    line that cannot be followed to its end counts as drift);            *)
+(*  - checks: the bounded-time forms of the properties, measured by the    *)
+(*    driver (layer B, together with the invariants that can be evaluated  *)
+(*    on an observation alone):                                            *)
+(*      terminates_within_grace            ~ StopTerminates                *)
+(*      left_at_once                       ~ NotifiedStopRoutingAtOnce     *)
+(*      stopped_advertising                ~ StoppedNodeAdvertisesNothing  *)
+(*      listeners_reconnected, served_again_from_every_survivor            *)
+(*                                         ~ EventuallyRecovered           *)
+(*      victim_excluded_from_routing       ~ NeverRouteToLeft              *)
+(* A StopOrder line: a node with many upstream connections was stopped     *)
+(* gracefully; what its peer holds for it afterwards.                      *)
 (***************************************************************************)
-EXTENDS Integers, Sequences, FiniteSets, Json, TLC
+EXTENDS Cluster, Json, TLC
 
 Log == ndJsonDeserialize("trace.ndjson")
 
-VARIABLES l, viol
-tvars == <<l, viol>>
+VARIABLES l,       \* line
+          i,       \* 0: between lines; k >= 1: the next event of line l's time line
+          viol, drift,
+          wasLeft  \* wasLeft[o] : nodes that o has shown as left in this scenario
+tvars == <<vars, l, i, viol, drift, wasLeft>>
+
+SetOf(arr) == {arr[k] : k \in DOMAIN arr}
 
 Required(e) ==
   (IF ~e.kill THEN {"terminates_within_grace", "left_at_once", "stopped_advertising"} ELSE {})
   \cup (IF e.phase # "idle" THEN {"listeners_reconnected", "served_again_from_every_survivor"} ELSE {})
   \cup {"victim_excluded_from_routing", "never_wrong_endpoint"}
-
-Passed(e) == {e.checks[i].name : i \in {j \in DOMAIN e.checks : e.checks[j].ok}}
-Failed(e) == {e.checks[i].name : i \in {j \in DOMAIN e.checks : ~e.checks[j].ok}}
-
+Passed(e) == {e.checks[k].name : k \in {j \in DOMAIN e.checks : e.checks[j].ok}}
+Failed(e) == {e.checks[k].name : k \in {j \in DOMAIN e.checks : ~e.checks[j].ok}}
 LossViolations(e) == (Required(e) \ Passed(e)) \cup Failed(e)
 
-\* StopOrder line: a node with e.sess upstream connections was stopped gracefully; e.note is the status its
-\* peer holds for it afterwards and e.status the number of endpoints the peer still holds for it
 StopOrderViolations(e) ==
   (IF e.note # "left" THEN {"NotifiedStopRoutingAtOnce"} ELSE {})
   \cup (IF e.status # 0 THEN {"LeftViewsAreEmpty"} ELSE {})
 
-TraceInit == l = 1 /\ viol = {}
-TraceNext ==
-  /\ l <= Len(Log)
-  /\ l' = l + 1
-  /\ viol' = IF Log[l].op = "Loss" THEN LossViolations(Log[l])
-             ELSE IF Log[l].op = "StopOrder" THEN StopOrderViolations(Log[l])
-             ELSE {}
+\* ---- observations ----------------------------------------------------------
+ObsOf(ev, n) == ev.views[CHOOSE k \in DOMAIN ev.views : ev.views[k].n = n]
+HasObs(ev, n) == \E k \in DOMAIN ev.views : ev.views[k].n = n
+
+\* the specification's state of node ev.o equals what its admin port showed
+MatchesView(ev) ==
+  \A n \in Node \ {ev.o} :
+    /\ HasObs(ev, n)
+    /\ ObsOf(ev, n).st = StOf(ev.o, n)
+    /\ SetOf(ObsOf(ev, n).eps) = EpsOf(ev.o, n)
+MatchesReg(ev) == SetOf(ev.reg) = reg[ev.o]
+
+\* judged on the observation alone
+ViewViolations(ev) ==
+  (IF \E k \in DOMAIN ev.views : ev.views[k].st = "left" /\ ev.views[k].eps # <<>>
+   THEN {"LeftViewsAreEmpty"} ELSE {})
+  \cup (IF \E k \in DOMAIN ev.views : ev.views[k].n \in wasLeft[ev.o] /\ ev.views[k].st # "left"
+        THEN {"LeftIsFinal"} ELSE {})
+LeftIn(ev) == {ev.views[k].n : k \in {j \in DOMAIN ev.views : ev.views[j].st = "left"}}
+
+\* ---- the trace --------------------------------------------------------------
+NoConn == [x \in Lsn |-> "none"]
+\* the state of Cluster.tla in which the listeners are connected as c says (InitFor, for the next state)
+SetTo(c) ==
+  /\ phase' = [n \in Node |-> "up"]
+  /\ conn' = c
+  /\ reg' = [n \in Node |-> {x \in Lsn : c[x] = n}]
+  /\ pub' = [n \in Node |-> <<[eps |-> {x \in Lsn : c[x] = n}, left |-> FALSE]>>]
+  /\ view' = [o \in Node |-> [n \in Node |-> [ver |-> 1, unreach |-> FALSE]]]
+  /\ victim' = ""
+
+TraceInit ==
+  /\ l = 1 /\ i = 0 /\ viol = {} /\ drift = 0 /\ wasLeft = [o \in Node |-> {}]
+  /\ InitFor(NoConn)
+  /\ TLCSet(1, 0) /\ TLCSet(2, 1000000)
+
+\* a line that is not a loss scenario
+PlainLine ==
+  /\ i = 0 /\ l <= Len(Log) /\ Log[l].op # "Loss"
+  /\ l' = l + 1 /\ i' = 0
+  /\ viol' = IF Log[l].op = "StopOrder" THEN StopOrderViolations(Log[l]) ELSE {}
+  /\ UNCHANGED <<vars, drift, wasLeft>>
+
+\* a loss scenario starts: the listeners are where the driver put them
+StartLoss ==
+  /\ i = 0 /\ l <= Len(Log) /\ Log[l].op = "Loss"
+  /\ LET e == Log[l] IN SetTo([x \in Lsn |-> IF e.phase = "idle" THEN "none" ELSE e.victim])
+  /\ i' = 1 /\ viol' = {} /\ wasLeft' = [o \in Node |-> {}]
+  /\ UNCHANGED <<l, drift>>
+
+Event ==
+  /\ i >= 1 /\ i <= Len(Log[l].tl)
+  /\ LET ev == Log[l].tl[i] IN
+     /\ CASE ev.k = "lose" -> Lose(Log[l].victim)
+          [] ev.k = "kill" -> Kill(Log[l].victim) \/ (Dead(Log[l].victim) /\ UNCHANGED vars)
+          [] ev.k = "exited" -> Dead(Log[l].victim) /\ UNCHANGED vars
+          [] ev.k = "view" -> MatchesView(ev) /\ UNCHANGED vars
+          [] ev.k = "reg" -> MatchesReg(ev) /\ UNCHANGED vars
+          [] OTHER -> UNCHANGED vars
+     /\ viol' = IF ev.k = "view" THEN ViewViolations(ev) ELSE {}
+     /\ wasLeft' = IF ev.k = "view" THEN [wasLeft EXCEPT ![ev.o] = @ \cup LeftIn(ev)] ELSE wasLeft
+  /\ i' = i + 1
+  /\ UNCHANGED <<l, drift>>
+
+\* between two observations anything of Background may happen; a flip of the failure detector about a live
+\* node is only tried when the next observation shows it
+NextShows(o, n, st) ==
+  LET ev == Log[l].tl[i] IN ev.k = "view" /\ ev.o = o /\ HasObs(ev, n) /\ ObsOf(ev, n).st = st
+Silent ==
+  /\ i >= 1 /\ i <= Len(Log[l].tl)
+  /\ \/ BackgroundCore
+     \/ \E o, n \in Node : FalseSuspect(o, n) /\ NextShows(o, n, "unreachable")
+     \/ \E o, n \in Node : Unsuspect(o, n) /\ NextShows(o, n, "active")
+  /\ UNCHANGED <<l, i, viol, drift, wasLeft>>
+
+\* the time line was followed to its end: the driver's own measurements are judged
+EndLoss ==
+  /\ i >= 1 /\ i = Len(Log[l].tl) + 1
+  /\ l' = l + 1 /\ i' = 0
+  /\ viol' = LossViolations(Log[l])
+  /\ SetTo(NoConn)
+  /\ UNCHANGED <<drift, wasLeft>>
+
+\* ... or it could not be followed (layer A): the rest of it is still judged on its own
+GiveUp ==
+  /\ i >= 1 /\ i <= Len(Log[l].tl)
+  /\ LET rest == {k \in i..Len(Log[l].tl) : Log[l].tl[k].k = "view"} IN
+     viol' = LossViolations(Log[l]) \cup UNION {ViewViolations(Log[l].tl[k]) : k \in rest}
+  /\ l' = l + 1 /\ i' = 0 /\ drift' = drift + 1
+  /\ SetTo(NoConn)
+  /\ UNCHANGED wasLeft
+
+TraceNext == PlainLine \/ StartLoss \/ Event \/ Silent \/ EndLoss \/ GiveUp
 TraceSpec == TraceInit /\ [][TraceNext]_tvars
 
 NoStepViolation == viol = {}
+
+\* acceptance: the smallest drift with which the end of the log is reached (register 2), and how far the log
+\* was followed (register 1); -workers 1
+DriftReport ==
+  /\ (l > TLCGet(1) => TLCSet(1, l))
+  /\ (l > Len(Log) /\ drift < TLCGet(2) => TLCSet(2, drift))
 Consumed ==
-  /\ PrintT(<<"TRACE-RESULT", TLCGet("stats").diameter - 1, Len(Log)>>)
-  /\ TLCGet("stats").diameter - 1 = Len(Log)
-DriftReport == l <= Len(Log) \/ PrintT(<<"TRACE-COUNTERS", 0, 0, 0>>)
+  /\ PrintT(<<"TRACE-RESULT", TLCGet(1) - 1, Len(Log)>>)
+  /\ PrintT(<<"TRACE-COUNTERS", TLCGet(2), 0, 0>>)
+  /\ TLCGet(1) - 1 = Len(Log)
 =============================================================================
